@@ -45,6 +45,11 @@ Definition go_decl (d : string * ty) : string := "type " ++ fst d ++ " " ++ go_t
 Definition go_file (pkg : string) (ds : declset) : string :=
   "package " ++ pkg ++ nl ++ nl ++ concat "" (map (fun d => go_decl d ++ nl) ds).
 
+(* the same declarations as one parenthesised group: type ( A ...; B ... ) *)
+Definition go_file_grouped (pkg : string) (ds : declset) : string :=
+  "package " ++ pkg ++ nl ++ nl ++ "type (" ++ nl ++
+  concat "" (map (fun d : string * ty => fst d ++ " " ++ go_type (snd d) ++ nl ++ nl) ds) ++ ")" ++ nl.
+
 (* nesting depth: collections and pointers-to-collections nest, names do not *)
 Fixpoint depth (t : ty) : nat :=
   match t with
